@@ -60,4 +60,21 @@ impl MlsGroup {
                 && *final(w) == (World { mls: old(w).mls.insert(old(self).view().group_id, final(self).view()), commits_created: old(w).commits_created + 1, last_proposed_extensions: Some(extensions), ..*old(w) }),
             r is Err ==> final(self).view() == old(self).view() && *final(w) == *old(w),
     { unimplemented!() }
+    // the committer refreshes its own leaf (new signature key, same identity). Like the other builders it sweeps the
+    // whole proposal store into the commit; C05: "a commit from a non-admin ... does nothing but refresh its author's
+    // own key material" and "never carries out roster changes merely proposed by someone else"
+    #[verifier::external_body]
+    pub fn self_update_with_new_signer<S: MdkStorageProvider>(&mut self, provider: &MdkProvider<S>, old_signer: &SignatureKeyPair, new_signer: NewSignerBundle<'_>, params: LeafNodeParameters, Tracked(w): Tracked<&mut World>) -> (r: Result<CommitMessageBundle, MlsOpError>)
+        requires old(self).view().pending_proposals == 0, //@L[group_ops.self_update.commit_contains_only_the_own_key_refresh|C05|callsite-requires]
+        ensures
+            r is Ok ==> final(self).view() == (MlsView { has_pending_commit: true, ..old(self).view() })
+                && *final(w) == (World { mls: old(w).mls.insert(old(self).view().group_id, final(self).view()), commits_created: old(w).commits_created + 1, ..*old(w) }),
+            r is Err ==> final(self).view() == old(self).view() && *final(w) == *old(w),
+    { unimplemented!() }
+}
+#[verifier::external_body] pub struct NewSignerBundle<'a> { _p: &'a u8 }
+#[verifier::external_body] pub struct LeafNodeParameters { _p: u8 }
+#[verifier::external_body] pub struct CommitMessageBundle { _p: u8 }
+impl CommitMessageBundle {
+    #[verifier::external_body] pub fn commit(&self) -> (r: &MlsMessageOut) { unimplemented!() }
 }
